@@ -104,7 +104,7 @@ PROPS = {
              "with entities, CDATA, character references, quotes; with and without a declaration on the same line, on its own line, "
              "with CR LF) held plainly and base64-wrapped, redacted through an xml() hop: the document as the XML reader reads it "
              "afterwards must be the one it read before with the marker at the path and nothing else changed, the declaration kept, "
-             "the target's text gone, and a path that is not in the document changes nothing (metamorphic: the reader is mxj, the "
+             "the target's text gone, the marker visible to the read path (`<field>.xml().<path> == \"[REDACTED]\"` true of the returned record), and a path that is not in the document changes nothing (metamorphic: the reader is mxj, the "
              "judge computes the expected tree and, where the path is in its subset - 560 of 630 cases - checks that C15's structural spec "
              "RedactSpec, the one the theorems are about, gives the same tree); "
              "kfl.redactf: `F and redact(P)` for 17 filter shapes F (plain, bracket-key, index + field - after which the grammar "
